@@ -36,8 +36,20 @@ def main(argv=None):
         an = Analyzer(prog)
         ctx = Ctx(prop, prog, an, args.tier, seed)
         mod.run(ctx)
-        if args.tier == 'thorough' and hasattr(mod, 'run_thorough'):
-            mod.run_thorough(ctx)
+        if args.tier == 'thorough':
+            if hasattr(mod, 'run_thorough'):
+                mod.run_thorough(ctx)
+            # self-test of the rules serving this property on single-edit variants (scratch copies outside /repo and /verif)
+            from .selftest import run_selftest
+            st = run_selftest(args.repo, prop, jobs=int(os.environ.get('PWSA_JOBS', '16')))
+            ctx.stats['selftest'] = {k: v for k, v in st.items() if k != 'results'}
+            ctx.stats['selftest']['samples'] = [r for r in st['results'] if r['status'] in ('detected',)][:5]
+            ctx.programs = st['variants'] - len(st['skipped'])
+            ctx.disagreements = len(st['broken_missed']) + len(st['benign_false_alarm'])
+            print(f"SELFTEST {prop}: {st['variants']} variants of the sources ({st['broken_detected']} broken variants detected, {len(st['broken_missed'])} missed, "
+                  f"{st['benign_silent']} benign silent, {len(st['benign_false_alarm'])} false alarms, {len(st['skipped'])} not applicable to this tree) in {st['wall_s']} s")
+            for r in st['broken_missed'] + st['benign_false_alarm'] + st['errors']:
+                print(f"SELFTEST-NOTE {prop}: {r['status']} {r['name']}: {r['detail']}")
         try:
             return finish(ctx, t0, mod.EXPLANATION, mod.TECHNIQUE)
         except AnalysisError as e:
